@@ -3,8 +3,9 @@
 // library built from vp.REPO and prints Status / NumTri of the result and of
 // every step of a short program applied to it.  One output line per case, so
 // that vp.run_cases can attribute a sanitizer abort / crash / hang to a case.
-// Built in the `san` variant (ASan+UBSan, no recover); a 10 s alarm per case
-// is the watchdog.
+// Built in the `san` variant (ASan+UBSan, no recover); a 10 s CPU-time timer per
+// case is the watchdog.
+#include <sys/time.h>
 #include <unistd.h>
 
 #include <cmath>
@@ -22,6 +23,13 @@
 #include "manifold/polygon.h"
 
 using namespace manifold;
+
+// CPU-time watchdog (SIGPROF): a busy loop is killed after `sec` seconds of CPU,
+// machine load alone does not trigger it.
+static void watchdog(int sec) {
+  struct itimerval t = {{0, 0}, {sec, 0}};
+  setitimer(ITIMER_PROF, &t, nullptr);
+}
 
 static std::vector<std::string> split(const std::string& s) {
   std::vector<std::string> out;
@@ -212,7 +220,7 @@ int main() {
     Cursor c{toks, 0};
     std::string kind = c.next();
     std::string id = c.next();
-    alarm(10);
+    watchdog(10);
     if (kind == "R") {
       int prec = (int)c.u();
       if (prec == 32) meshCase<float, uint32_t>(id, c); else meshCase<double, uint64_t>(id, c);
@@ -273,6 +281,9 @@ int main() {
       else if (what == "Translate") m = Manifold::Cube().Translate({a, b, d});
       else if (what == "SetTolerance") m = Manifold::Sphere(1, 8).SetTolerance(a);
       else if (what == "Simplify") m = Manifold::Sphere(1, 8).Simplify(a);
+      else if (what == "SmoothByNormals") m = Manifold::Cube().CalculateNormals(0).SmoothByNormals((int)n);
+      else if (what == "CalculateCurvature") m = Manifold::Sphere(1, 8).CalculateCurvature((int)n, (int)n + 1);
+      else if (what == "CalculateNormals") m = Manifold::Cube().CalculateNormals((int)n, a);
       else if (what == "Circle") { CrossSection cs = CrossSection::Circle(a, (int)n); m = Manifold::Extrude(cs.ToPolygons(), 1); }
       else if (what == "Square") { CrossSection cs = CrossSection::Square({a, b}, n & 1); m = Manifold::Extrude(cs.ToPolygons(), 1); }
       else if (what == "Offset") { CrossSection cs = CrossSection::Square({1, 1}).Offset(a, CrossSection::JoinType::Round, b, (int)n); m = Manifold::Extrude(cs.ToPolygons(), 1); }
@@ -282,7 +293,7 @@ int main() {
       return 3;
     }
     fflush(stdout);
-    alarm(0);
+    watchdog(0);
   }
   return 0;
 }
